@@ -98,10 +98,15 @@ SatSet(c) == { a \in Assigns : Satisfies(c, a) }
 NormIneq(c) == MkIneq(FoldTerms(Empty, c.terms, 1), [c |-> c.bound, t |-> <<>>], c.op)
 LitSet(ls) == { ULit(ls[i]) : i \in DOMAIN ls }
 
-\* what the layer may refuse: what it documents as not implemented -- a pseudo-Boolean =, > or < that is NOT a plain
-\* disjunction (isclause: "can be expressed as l1 v l2 v ..." -- those are posted as clauses) -- and Heule with k < 3
-Refusable(c) == \/ c.kind = "pb" /\ c.op \in {">", "<", "="} /\ ClauseForm(NormIneq(c)).kind = "no"
+\* What the property lets the layer refuse: what it documents as not implemented -- pseudo-Boolean =, >, < -- and
+\* Heule with k < 3.  (A refusal never breaks "encoded exactly or refused"; refused_encodable only guards against
+\* refusing the constraint kinds the layer exists for.)
+Refusable(c) == \/ c.kind = "pb" /\ c.op \in {">", "<", "="}
                 \/ c.kind = "amo" /\ c.meth = "heule" /\ c.k < 3
+\* What the code as modelled refuses (model conformance only): a strict or equality constraint that is NOT a plain
+\* disjunction -- clause-shaped ones are posted as clauses (isclause) -- and Heule with k < 3.
+RefusedAsCoded(c) == \/ c.kind = "pb" /\ c.op \in {">", "<", "="} /\ ClauseForm(NormIneq(c)).kind = "no"
+                     \/ c.kind = "amo" /\ c.meth = "heule" /\ c.k < 3
 
 NewMgr == [allowed |-> Assigns, cnf |-> {}, cod |-> {}, aux |-> 0, posted |-> <<>>]
 \* -> [refused, cnf, cod, aux, store, root]   (root = -1: no diagram was built)
